@@ -647,6 +647,7 @@ static int32_t tls13WriteServerKeyShare(ssl_t *ssl,
         rc = tls13ServerChooseHelloRetryRequestGroup(ssl, &namedGroup);
         if (rc < 0)
         {
+            psDynBufUninit(&keyShareBuf);
             return rc;
         }
     }
@@ -664,6 +665,7 @@ static int32_t tls13WriteServerKeyShare(ssl_t *ssl,
         rc = tls13GenerateEphemeralKeys(ssl);
         if (rc < 0)
         {
+            psDynBufUninit(&keyShareBuf);
             return rc;
         }
 
@@ -680,6 +682,7 @@ static int32_t tls13WriteServerKeyShare(ssl_t *ssl,
                 &pubValLen);
         if (rc < 0)
         {
+            psDynBufUninit(&keyShareBuf);
             return rc;
         }
 
